@@ -84,3 +84,24 @@ func VerifH_C12_HashChainDriver(size int) {
 	}
 	verifapi.Cover(n > 1, "multi-CPU case compared")
 }
+
+// VerifH_C10_HashChainRace: HashChain.Fill's range-split second pass (workers write disjoint ranges of
+// OffsetLength and read the copied chain) on concrete pictures: footprints of the worker goroutines
+// are pairwise disjoint, so every interleaving gives the same result (threshold scaled by source patch).
+func VerifH_C10_HashChainRace(size, pattern, n int) {
+	verifapi.Procs(n)
+	argb := make([]uint32, size)
+	for i := range argb {
+		switch pattern {
+		case 0:
+			argb[i] = 0xff000000 | uint32(i%5)<<8
+		case 1:
+			argb[i] = 0xff000000 | uint32((i*i)%11)<<16 | uint32(i%3)
+		default:
+			argb[i] = 0xff112233
+		}
+	}
+	hc := NewHashChain(size)
+	hc.Fill(argb, 75, size, 1, false)
+	verifapi.Cover(true, "filled")
+}
